@@ -232,6 +232,11 @@ class Case:
         minc = rng.choice([0, 0, 1, 1, 1, 3])
         maxu = rng.choice([None, None, None, 1, 2, 4])
         mode = rng.choice(['auto', 'auto', 'auto', 'given', 'given-invalid'])
+        force_spent = False
+        if self.spent and not getattr(self, 'spent_named_once', False):
+            # once per wallet for certain: an explicit input list that names an output the wallet has spent (listed finding F40)
+            self.spent_named_once = True
+            mode, force_spent = 'given-invalid', True
         input_arr = None
         given = []
         invalid = None
@@ -242,7 +247,7 @@ class Case:
             else:
                 chosen = rng.sample(pool, rng.randrange(1, min(4, len(pool)) + 1))
                 if mode == 'given-invalid':
-                    r = rng.random()
+                    r = rng.random() if not force_spent else 0.5
                     low = sorted(k for k, v in self.utxos.items() if not v[2] and v[1] < minc)
                     if r < 0.34:
                         chosen = chosen + [chosen[0]]
